@@ -49,6 +49,17 @@ type Case struct {
 	Proj   string     `json:"proj,omitempty"`
 	Typed  bool       `json:"typed,omitempty"`
 	Plural bool       `json:"plural,omitempty"` // use Layers.Project… instead of Layer.Project…
+
+	// kind "layers": a set of layers with their own extents and features, see roundj_test.go
+	Layers     []LayerSpec `json:"layers,omitempty"`
+	WGSPlural  bool        `json:"wgs_plural,omitempty"`  // Layers.ProjectToWGS84 on the whole set (else Layer.ProjectToWGS84 on each)
+	TilePlural bool        `json:"tile_plural,omitempty"` // Layers.ProjectToTile on the whole set (else Layer.ProjectToTile on each)
+	ViaMVT     bool        `json:"via_mvt,omitempty"`     // the set goes through mvt.Marshal / mvt.Unmarshal first
+
+	// noise calls (class D): Pre before the first judgement, Mid between the two legs of a
+	// round trip and between two observations of the checked calls
+	Pre []Noise `json:"pre,omitempty"`
+	Mid []Noise `json:"mid,omitempty"`
 }
 
 const (
@@ -184,11 +195,14 @@ func layerOf(extent uint32, g orb.Geometry) *mvt.Layer {
 	return &mvt.Layer{Name: "l", Version: 2, Extent: extent, Features: []*geojson.Feature{geojson.NewFeature(g)}}
 }
 
-func roundTrip(l *mvt.Layer, t maptile.Tile, plural bool, mid func(orb.Geometry) error) error {
+func roundTrip(l *mvt.Layer, t maptile.Tile, plural bool, between []Noise, mid func(orb.Geometry) error) error {
 	if plural {
 		mvt.Layers{l}.ProjectToWGS84(t)
 	} else {
 		l.ProjectToWGS84(t)
+	}
+	for _, n := range between {
+		runNoise(n)
 	}
 	if mid != nil {
 		if err := mid(l.Features[0].Geometry); err != nil {
@@ -215,7 +229,7 @@ func checkPixels(c Case) error {
 		mp[i] = orb.Point{float64(p[0]), float64(p[1])}
 	}
 	l := layerOf(c.Extent, mp)
-	err := roundTrip(l, c.Tile.orb(), c.Plural, func(g orb.Geometry) error {
+	err := roundTrip(l, c.Tile.orb(), c.Plural, c.Mid, func(g orb.Geometry) error {
 		w, ok := g.(orb.MultiPoint)
 		if !ok || len(w) != len(c.Pix) {
 			return fmt.Errorf("ProjectToWGS84 turned a %d-point MultiPoint into %T of length %d", len(c.Pix), g, len(w))
@@ -248,7 +262,7 @@ func checkLayerGeom(c Case) error {
 	}
 	orig := gen.DeepCopy(c.G.V)
 	l := layerOf(c.Extent, gen.DeepCopy(c.G.V))
-	if err := roundTrip(l, c.Tile.orb(), c.Plural, func(g orb.Geometry) error {
+	if err := roundTrip(l, c.Tile.orb(), c.Plural, c.Mid, func(g orb.Geometry) error {
 		// same kind and nesting in WGS84 too
 		sa, _ := gen.Flatten(orig)
 		sb, _ := gen.Flatten(g)
@@ -446,8 +460,43 @@ func checkGeometry(c Case) error {
 	return nil
 }
 
+// checkCase judges the case; when it carries noise calls the order is: Pre
+// noise, judgement (with the Mid noise between the two legs of a round trip),
+// observation, Mid noise, observation (must equal the first bit for bit),
+// judgement again.
 func checkCase(c Case) error {
+	if len(c.Pre) == 0 && len(c.Mid) == 0 {
+		return checkCore(c)
+	}
+	for _, n := range c.Pre {
+		runNoise(n)
+	}
+	if err := checkCore(c); err != nil {
+		return fmt.Errorf("with noise calls %s / %s: %w", gen.JSON(c.Pre), gen.JSON(c.Mid), err)
+	}
+	before := observe(c)
+	for _, n := range c.Mid {
+		runNoise(n)
+	}
+	after := observe(c)
+	if len(before) != len(after) {
+		return fmt.Errorf("the checked calls returned %d words before and %d after the noise calls %s", len(before), len(after), gen.JSON(c.Mid))
+	}
+	for i := range before {
+		if before[i] != after[i] {
+			return fmt.Errorf("checked value %d changed from %v to %v across the noise calls %s", i, math.Float64frombits(before[i]), math.Float64frombits(after[i]), gen.JSON(c.Mid))
+		}
+	}
+	if err := checkCore(c); err != nil {
+		return fmt.Errorf("after the noise calls %s: %w", gen.JSON(c.Mid), err)
+	}
+	return nil
+}
+
+func checkCore(c Case) error {
 	switch c.Kind {
+	case "layers":
+		return checkLayers(c)
 	case "wgs":
 		return checkWGS(c.P.Pt())
 	case "merc":
@@ -539,8 +588,21 @@ func zoomClass(z uint32) string {
 func TestPropPoint(t *testing.T) {
 	stats.Assume("WGS84 points have longitude in [-180,180] and latitude in [-85.05,85.05]; mercator points lie in the image of that box")
 	stats.Assume("besides the stated round-trip tolerances (1e-9 deg, 1e-3 m) each single projection is compared with the spherical web-mercator formula (R = 6378137 m): degrees within 1e-9 x (1 + |value|), metres within 1e-6 m + 1e-9 x |value|")
-	my := mercMaxY()
 	stats.Check(t, 600000, 8000000, func(rt *rapid.T) {
+		c, nt := drawPoint(rt)
+		if nt {
+			stats.NonTrivial(gen.JSON(c))
+			if g := c.Kind; stats.WantSample(g) && len(gen.JSON(c)) < 1500 {
+				stats.Sample(g, c)
+			}
+		}
+		stats.Try(rt, "TestPropPoint", c, func() error { return checkCase(c) })
+	})
+}
+
+// drawPoint draws one case of TestPropPoint and reports whether it is non-trivial.
+func drawPoint(rt *rapid.T) (Case, bool) {
+	{
 		var c Case
 		var p orb.Point
 		if rapid.Bool().Draw(rt, "merc") {
@@ -556,7 +618,7 @@ func TestPropPoint(t *testing.T) {
 				}
 				return rapid.Float64Range(-lim, lim).Draw(rt, label)
 			}
-			p = orb.Point{co(mercMaxX, "x"), co(my, "y")}
+			p = orb.Point{co(mercMaxX, "x"), co(mercMaxY(), "y")}
 			stats.Class("point:mercator")
 		} else {
 			c.Kind = "wgs"
@@ -589,20 +651,28 @@ func TestPropPoint(t *testing.T) {
 			}
 		}
 		c.P = gen.FromPt(p)
-		if p[0] != 0 && p[1] != 0 {
-			stats.NonTrivial(gen.JSON(c))
-			if stats.WantSample(c.Kind) {
-				stats.Sample(c.Kind, c)
-			}
-		}
-		stats.Try(rt, "TestPropPoint", c, func() error { return checkCase(c) })
-	})
+		return c, p[0] != 0 && p[1] != 0
+	}
 }
 
 func TestPropPixels(t *testing.T) {
 	stats.Assume("tiles have zoom 0..22; integer tile coordinates lie in [-extent, 2*extent); at zoom 0 and 1 only rows inside the mercator square are used (buffer rows there lie beyond latitude 89.19 where mercator.ToPlanar clamps: tile 0/0/0 extent 256 (5,-200) comes back as (5,255)); from zoom 2 on rows above/below the square and columns beyond +-180 are included")
 	stats.Assume("besides the exact round trip, the WGS84 image of an integer tile coordinate must lie in the closed lon/lat box of that pixel (own mercator formula, 1e-9 deg)")
 	stats.Check(t, 100000, 1200000, func(rt *rapid.T) {
+		c, nt := drawPixels(rt)
+		if nt {
+			stats.NonTrivial(gen.JSON(c))
+			if g := "pixels"; stats.WantSample(g) && len(gen.JSON(c)) < 1500 {
+				stats.Sample(g, c)
+			}
+		}
+		stats.Try(rt, "TestPropPixels", c, func() error { return checkCase(c) })
+	})
+}
+
+// drawPixels draws one case of TestPropPixels and reports whether it is non-trivial.
+func drawPixels(rt *rapid.T) (Case, bool) {
+	{
 		c := Case{Kind: "pixels"}
 		c.Tile = genTile(rt)
 		var ec string
@@ -626,14 +696,8 @@ func TestPropPixels(t *testing.T) {
 		}
 		stats.Class("pixels " + zoomClass(c.Tile.Z))
 		stats.ClassN("pixel round trips (rapid)", int64(n))
-		if c.Tile.Z >= 10 || outside {
-			stats.NonTrivial(gen.JSON(c))
-			if stats.WantSample("pixels") && n <= 6 {
-				stats.Sample("pixels", c)
-			}
-		}
-		stats.Try(rt, "TestPropPixels", c, func() error { return checkCase(c) })
-	})
+		return c, c.Tile.Z >= 10 || outside
+	}
 }
 
 func nested(g orb.Geometry) bool {
@@ -646,6 +710,20 @@ func nested(g orb.Geometry) bool {
 
 func TestPropLayerGeometry(t *testing.T) {
 	stats.Check(t, 60000, 800000, func(rt *rapid.T) {
+		c, nt := drawLayerGeom(rt)
+		if nt {
+			stats.NonTrivial(gen.JSON(c))
+			if g := "layergeom"; stats.WantSample(g) && len(gen.JSON(c)) < 1500 {
+				stats.Sample(g, c)
+			}
+		}
+		stats.Try(rt, "TestPropLayerGeometry", c, func() error { return checkCase(c) })
+	})
+}
+
+// drawLayerGeom draws one case of TestPropLayerGeometry and reports whether it is non-trivial.
+func drawLayerGeom(rt *rapid.T) (Case, bool) {
+	{
 		c := Case{Kind: "layergeom"}
 		c.Tile = genTile(rt)
 		var ec string
@@ -670,19 +748,27 @@ func TestPropLayerGeometry(t *testing.T) {
 			stats.Class(leftOutClass)
 		}
 		stats.Class("layer geometry kind:" + gen.KindOf(g))
-		if c.Tile.Z >= 10 || outside || nested(g) {
-			stats.NonTrivial(gen.JSON(c))
-			if stats.WantSample("layergeom") && len(bits) <= 16 {
-				stats.Sample("layergeom", c)
-			}
-		}
-		stats.Try(rt, "TestPropLayerGeometry", c, func() error { return checkCase(c) })
-	})
+		return c, c.Tile.Z >= 10 || outside || nested(g)
+	}
 }
 
 func TestPropGeometry(t *testing.T) {
 	stats.Assume("point functions are pure and return finite values (identity, rotations, affine maps, a constant, the two real projections on inputs inside their range); every call is logged by a wrapper")
 	stats.Check(t, 120000, 2000000, func(rt *rapid.T) {
+		c, nt := drawGeometry(rt)
+		if nt {
+			stats.NonTrivial(gen.JSON(c))
+			if g := "geometry"; stats.WantSample(g) && len(gen.JSON(c)) < 1500 {
+				stats.Sample(g, c)
+			}
+		}
+		stats.Try(rt, "TestPropGeometry", c, func() error { return checkCase(c) })
+	})
+}
+
+// drawGeometry draws one case of TestPropGeometry and reports whether it is non-trivial.
+func drawGeometry(rt *rapid.T) (Case, bool) {
+	{
 		c := Case{Kind: "geometry"}
 		pf := projs[rapid.IntRange(0, len(projs)-1).Draw(rt, "proj")]
 		c.Proj = pf.name
@@ -703,14 +789,8 @@ func TestPropGeometry(t *testing.T) {
 		if d := gen.Depth(g); d >= 2 {
 			stats.Class("geometry:nested collection")
 		}
-		if nested(g) {
-			stats.NonTrivial(gen.JSON(c))
-			if _, bits := gen.Flatten(g); stats.WantSample("geometry") && len(bits) <= 24 {
-				stats.Sample("geometry", c)
-			}
-		}
-		stats.Try(rt, "TestPropGeometry", c, func() error { return checkCase(c) })
-	})
+		return c, nested(g)
+	}
 }
 
 // ---------------------------------------------------------------- enumerations
@@ -850,9 +930,21 @@ func TestEnumKinds(t *testing.T) {
 // ---------------------------------------------------------------- replay
 
 func TestReplay(t *testing.T) {
-	_, raw, ok := stats.Replaying()
+	name, raw, ok := stats.Replaying()
 	if !ok {
 		t.Skip("no replay file")
+	}
+	if name == "TestPropConcurrent" {
+		var cs []Case
+		if err := json.Unmarshal(raw, &cs); err != nil {
+			t.Fatal(err)
+		}
+		for k := 0; k < 20; k++ {
+			if err := stats.ParallelErr(len(cs), 100, func(i int) error { return checkCase(cs[i]) }); err != nil {
+				t.Fatalf("replayed concurrent group still fails: %v", err)
+			}
+		}
+		return
 	}
 	var c Case
 	if err := json.Unmarshal(raw, &c); err != nil {
